@@ -158,6 +158,19 @@ func ruleUpdateSignalSelects(c *core.Ctx) {
 	}
 	c.Check(ok && direct > 0, rule, "bus.signalHandler.UpdateSignal", fn.Pos(), "only users with user.signalID == signalID are selected, and the event carries that id",
 		"UpdateSignal sends an event to users registered for another signal (or with another signal id)")
+	// every selected user is served: no early return from the sending loop
+	for _, call := range core.Calls(fn) {
+		if core.IsCallTo(call, reply) {
+			in := call.(ssa.Instruction)
+			bad := ""
+			if loopHeaderOf(in) == nil {
+				bad = "the event is not sent from a loop over the selected subscribers"
+			} else if ret := earlyReturnAfter(in); ret != nil {
+				bad = "the loop over the subscribers can be left early (return at " + c.Pos(ret.Pos()) + "): after one subscriber's send fails, the subscribers after it never get the event"
+			}
+			c.Check(bad == "", rule, "bus.signalHandler.UpdateSignal/all-subscribers", call.Pos(), "every selected subscriber is sent the event, whatever happens to the others", bad)
+		}
+	}
 }
 
 func ruleSignalTable(c *core.Ctx) {
@@ -315,6 +328,47 @@ func ruleRefcount(c *core.Ctx) {
 	}
 	c.Check(kp != "" && kp != "?" && kp == km, rule, "bus.proxy.SubscribeID/key", fn.Pos(), "increment and decrement use the same key format "+kp,
 		"the subscriber count is incremented and decremented under different keys")
+	// the remote registration id kept under the ".handler" key: what the
+	// register path adds (a non-constant amount) the unregister path must take
+	// back (State(k, -State(k, 0))), otherwise the next cycle unregisters a
+	// wrong id and the server-side registration leaks (duplicated events)
+	var addFmt string
+	var addPos token.Pos
+	for _, f := range core.AnonFuncs(fn) {
+		for _, call := range core.Calls(f) {
+			cc := call.Common()
+			if cc.IsInvoke() && cc.Method.Name() == "State" && len(cc.Args) == 2 {
+				if _, isConst := core.ConstInt(cc.Args[1]); !isConst {
+					if _, isNeg := core.Canon(cc.Args[1]).(*ssa.UnOp); !isNeg {
+						addFmt = keyShape(cc.Args[0])
+						addPos = call.Pos()
+					}
+				}
+			}
+		}
+	}
+	if addFmt != "" {
+		balanced := false
+		for _, f := range core.AnonFuncs(fn) {
+			for _, call := range core.Calls(f) {
+				cc := call.Common()
+				if !(cc.IsInvoke() && cc.Method.Name() == "State" && len(cc.Args) == 2) || keyShape(cc.Args[0]) != addFmt {
+					continue
+				}
+				neg, ok := core.Canon(cc.Args[1]).(*ssa.UnOp)
+				if !ok || neg.Op != token.SUB {
+					continue
+				}
+				if src, _ := core.CallResult(neg.X); src != nil && src.Common().IsInvoke() && src.Common().Method.Name() == "State" && keyShape(src.Common().Args[0]) == addFmt {
+					if k, ok := core.ConstInt(src.Common().Args[1]); ok && k == 0 {
+						balanced = true
+					}
+				}
+			}
+		}
+		c.Check(balanced, rule, "bus.proxy.SubscribeID/registration-id", addPos, "the stored registration id ("+addFmt+") is taken back when the last subscriber leaves",
+			"the registration id stored under "+addFmt+" is added on register but never subtracted on unregister: from the second cycle on a wrong id is unregistered, the server keeps the old registration and every event arrives twice")
+	}
 	// the returned cancel always calls the local cancel
 	okCancel := false
 	for _, f := range fn.AnonFuncs {
